@@ -178,6 +178,16 @@ func (s *stream) tryUnblock() bool {
 		return false
 	}
 
+	// the heartbeat works on a copy of the blocked list: since the copy was taken the stream may have got
+	// its event and the processor may have gone on with it (the event is then away and not committed yet)
+	s.streamer.blockedMu.Lock()
+	isBlocked := s.blockIndex != -1
+	s.streamer.blockedMu.Unlock()
+	if !isBlocked {
+		s.mu.Unlock()
+		return false
+	}
+
 	if s.awaySeq != s.commitSeq.Load() {
 		logger.Panicf("why events are different? away event id=%d, commit event id=%d", s.awaySeq, s.commitSeq)
 	}
